@@ -9,7 +9,8 @@ HARNESSES = {
 }
 RULE = ("literal endpoints: IPv4 / IPv6 addresses from raw bytes (unspecified, loopback, broadcast, v4-mapped, link-local with the "
         "interface scopes of this host, high-bit patterns, PRNG 32/128-bit values), ports {0,1,79,80,443,1023,1024,32767,32768,65534,"
-        "65535} and random, each in every documented spelling (h:p, [h]:p, scheme://.., ../path?query, pair (h,\"p\")) built by the "
+        "65535} and random, each in every documented spelling (h:p, [h]:p, scheme://.., ../path?query, pair (h,\"p\"); for port 0 also "
+        "the service-less host and host/path, whose first colon may sit inside the free-text path) built by the "
         "harness from its own inet_ntop text; service / scheme names present in this image's services database; numeric services "
         "{-1,-3,65536,65537,99999,2^31,2^32,2^32+80,2^63,2^64,2^64+80,10^30} and in-range ones with prefixes \"\", +, -, blank, tab, "
         "0, 00 in each of the three positions (after the colon, as scheme, as service argument). non-trivial = a case containing a "
